@@ -31,7 +31,7 @@ from concurrent.futures import ThreadPoolExecutor
 from pylib import atomic, fsrec, tlc
 from pylib.common import mktmp, rng, use_repo
 
-LEVEL = "fault_enumeration"
+LEVEL = "model_checking"
 
 CHF_SETS = [("size", "blake2b", "sha512"), ("size", "sha256"), ("size", "md5", "sha1"), ("size", "sha512")]
 HASH = {"blake2b": hashlib.blake2b, "sha512": hashlib.sha512, "sha256": hashlib.sha256, "md5": hashlib.md5, "sha1": hashlib.sha1}
@@ -109,7 +109,7 @@ def run(ck):
 
     bad_mc = bad_fs = None
     if not ck.replay_case:
-        bg(ck.laws, "Manifest_Laws", cfg_text=f"CONSTANT MaxFiles = {ck.pick(2, 4)}\n", label="Laws:Manifest (ParseBack, OrderIndependent, Idempotent)", timeout=880)
+        bg(ck.laws, "Manifest_Laws", cfg_text=f"CONSTANT MaxFiles = {ck.pick(2, 3)}\n", label="Laws:Manifest (ParseBack, OrderIndependent, Idempotent)", timeout=880)
         mcc = 'SPECIFICATION Spec\nCONSTANTS\n Files = {%s}\n MaxVer = 2\n Variant = "%s"\nCONSTRAINT Bound\nINVARIANT OldOrNew\nPROPERTY WritesOnlyWhenStale\nPROPERTY CommitInstalls\n'
         bg(ck.mc, "Manifest_MC", cfg_text=mcc % (ck.pick('"e","m"', '"e","m","a"'), "atomic"), workers=2, label="MC:Manifest atomic", timeout=800)
         bad_mc = bg(ck.mc, "Manifest_MC", cfg_text=mcc % ('"e","m"', "inplace"), expect_ok=False, label="MC:Manifest inplace (must violate)")
@@ -217,7 +217,7 @@ def run(ck):
 
     r_ = rng(28)
     root = mktmp("c28")
-    n = 1 if ck.replay_case else ck.pick(16, 240)
+    n = 1 if ck.replay_case else ck.pick(16, 150)
     my_events, fs_events, cases = [], [], {}
     for tid in range(n):
         c = ck.replay_case["detail"]["case"] if ck.replay_case else gen_case(r_, tid)
